@@ -133,6 +133,12 @@ Definition take_order (m : gmap N elem) : M' (list elem) :=
   s <- get ;;
   let l := order_of m (s_perm s) in
   if valid_order m l then ret l else fault_ FOracle.
+(* an order that only matters for what happens when a callback panics midway (which clones exist
+   by then): the oracle's if it gives a valid one, any other enumeration otherwise *)
+Definition take_order_or (m : gmap N elem) : M' (list elem) :=
+  s <- get ;;
+  let l := order_of m (s_perm s) in
+  ret (if valid_order m l then l else (map_to_list m).*2).
 (* the order in which a table that becomes the old table will be emptied: the full order if the
    oracle has it, else any order that ends with what is observed to be left afterwards (keys of
    qs that are not in m belong to a later growth within the same call) *)
